@@ -24,7 +24,7 @@ structure State (α : Type) where
   items          : Array (Item α)
   insertionCount : Nat
   closed         : Bool
-deriving Repr
+deriving DecidableEq, Repr
 
 /-- The public methods of `PriorityQueue[T]`. -/
 inductive Op (α : Type) where
